@@ -6,10 +6,14 @@ PROPFILES = ["props/C12.v"]
 ASSUMPTIONS = rp.ASSUMPTIONS
 TRUSTED = rp.TRUSTED
 RULE = ("sequences of good and corrupted frames of the three protocols and arbitrary garbage streams x quitonerror "
-        "{0,1,2} x handler present/absent x random protfilter/parsing; READ correspondence (items, handler calls in "
+        "{0,1,2} x handler {function, bound method, falsy callable object, absent} x random protfilter/parsing; READ correspondence (items, handler calls in "
         "order with exception class, raised exception) + search on the implementation: items(IGNORE)==items(LOG); "
         "RAISE delivers the IGNORE items up to the first rejection and raises exactly the first exception the LOG "
         "handler received; no handler call without a rejection.")
+
+
+def inp_base(s, pf, parsing):
+    return {"op": "READ", "stream": s.hex(), "pf": pf, "parsing": parsing}
 
 
 def run(ctx):
@@ -25,7 +29,7 @@ def run(ctx):
         pf = 7 if rng.random() < 0.6 else rng.randrange(8)
         parsing = rng.random() < 0.85
         for qe in (0, 1, 2):
-            for handler in (True, False):
+            for handler in (True, False, "obj", "method"):
                 cases.append({"stream": s, "pf": pf, "qe": qe, "parsing": parsing, "handler": handler})
     obs = rp.correspond_runs(ctx, cases, "READ")
     by = {}
@@ -37,6 +41,11 @@ def run(ctx):
             lg = by[(s, pf, parsing, 1, True)]
             rs = by[(s, pf, parsing, 2, True)]
             lgn = by[(s, pf, parsing, 1, False)]
+            for hk in ("obj", "method"):
+                # the kind of callable must not matter (a falsy callable object is still a handler)
+                if by[(s, pf, parsing, 1, hk)]["reports"] != lg["reports"]:
+                    ctx.fail("handler-kind-matters", dict(inp_base(s, pf, parsing), handler=hk), str(lg["reports"])[:200],
+                             str(by[(s, pf, parsing, 1, hk)]["reports"])[:200])
             inp = {"op": "READ", "stream": s.hex(), "pf": pf, "parsing": parsing}
             if rp.items_key(ig["items"]) != rp.items_key(lg["items"]):
                 ctx.fail("ignore-vs-log-items", inp, str(rp.items_key(ig["items"]))[:300], str(rp.items_key(lg["items"]))[:300])
